@@ -115,7 +115,13 @@ fn t_palette(rng: &mut Rng, segs: u32) -> f32 {
 }
 
 fn bezier_case<T: Sp>(rng: &mut Rng, rep: &mut Report, idx: u64) {
-    let (pts, maxc) = gen_ctrl(rng, T::N, 4);
+    let (mut pts, maxc) = gen_ctrl(rng, T::N, 4);
+    // the control values as the type holds them (a type that stores another
+    // unit internally need not give back the very bits it was made from)
+    for p in pts.iter_mut() {
+        let held = T::make(p).comps();
+        p[..T::N].copy_from_slice(&held[..T::N]);
+    }
     let p64: [[f64; 4]; 4] = std::array::from_fn(|i| pts[i].map(|x| x as f64));
     let curve = CubicBezier([T::make(&pts[0]), T::make(&pts[1]), T::make(&pts[2]), T::make(&pts[3])]);
     let mut hs = Hasher::new();
@@ -184,7 +190,11 @@ fn bezier_case<T: Sp>(rng: &mut Rng, rep: &mut Report, idx: u64) {
 fn spline_case<T: Sp>(rng: &mut Rng, rep: &mut Report, idx: u64) {
     let segs = 1 + rng.below(8) as u32;
     let npts = 3 * segs as usize + 1;
-    let (pts, maxc) = gen_ctrl(rng, T::N, npts);
+    let (mut pts, maxc) = gen_ctrl(rng, T::N, npts);
+    for p in pts.iter_mut() {
+        let held = T::make(p).comps();
+        p[..T::N].copy_from_slice(&held[..T::N]);
+    }
     let ctrl: Vec<T> = pts.iter().map(|p| T::make(p)).collect();
     let sp = BezierSpline::new(&ctrl);
     let mut hs = Hasher::new();
@@ -337,16 +347,27 @@ fn spline_case<T: Sp>(rng: &mut Rng, rep: &mut Report, idx: u64) {
         std::array::from_fn(|k| if k < T::N { c[k].to_bits() } else { 0 })
     };
     let ob: Vec<[u32; 4]> = out.iter().map(&bits).collect();
-    let distinct = {
+    // "the same point": the same bits, or within 16 ulps of the largest
+    // control value (a polyline built with the other evaluator, or by
+    // subdivision, holds curve points that differ from eval() in the last bits)
+    let ptol = 16.0 * f32::EPSILON * maxc as f32;
+    let bits_distinct = {
         let mut s = ob.clone();
         s.sort();
         s.windows(2).all(|w| w[0] != w[1])
     };
+    let far_apart = ob.windows(2).all(|w| (0..T::N).any(|k| (f32::from_bits(w[0][k]) - f32::from_bits(w[1][k])).abs() > 4.0 * ptol));
+    let distinct = bits_distinct;
     struct Fit<'a, T: Sp> {
         sp: &'a BezierSpline<T>,
         ob: &'a [[u32; 4]],
         pieces: Vec<(f32, f32, u32)>,
         bad: Option<String>,
+        ptol: f32,
+        n: usize,
+    }
+    fn same_point(x: &[u32; 4], y: &[u32; 4], n: usize, ptol: f32) -> bool {
+        x == y || (0..n).all(|k| (f32::from_bits(x[k]) - f32::from_bits(y[k])).abs() <= ptol)
     }
     const DEPTH_CAP: u32 = 30;
     fn fit<T: Sp>(f: &mut Fit<T>, i: usize, a: f32, b: f32, dep: u32, bits: &dyn Fn(&T) -> [u32; 4]) -> usize {
@@ -359,7 +380,7 @@ fn spline_case<T: Sp>(rng: &mut Rng, rep: &mut Report, idx: u64) {
         }
         let end = if b == 1.0 { f.ob[f.ob.len() - 1] } else { bits(&f.sp.eval(b)) };
         let last_piece_ok = b != 1.0 || i + 2 == f.ob.len();
-        if f.ob[i + 1] == end && last_piece_ok {
+        if same_point(&f.ob[i + 1], &end, f.n, f.ptol) && last_piece_ok {
             f.pieces.push((a, b, dep));
             return i + 1;
         }
@@ -371,10 +392,23 @@ fn spline_case<T: Sp>(rng: &mut Rng, rep: &mut Report, idx: u64) {
         let j = fit(f, i, a, mid, dep + 1, bits);
         fit(f, j, mid, b, dep + 1, bits)
     }
-    let mut ft = Fit { sp: &sp, ob: &ob, pieces: vec![], bad: None };
-    let used = fit(&mut ft, 0, 0.0, 1.0, 0, &bits);
+    // exact fit first (what the library's own evaluator gives); only if that
+    // fails, the fit within ptol
+    let mut ft = Fit { sp: &sp, ob: &ob, pieces: vec![], bad: None, ptol: 0.0, n: T::N };
+    let mut used = fit(&mut ft, 0, 0.0, 1.0, 0, &bits);
     if ft.bad.is_none() && used + 1 != out.len() {
         ft.bad = Some(format!("{} points returned but the dyadic partition accounts for {}", out.len(), used + 1));
+    }
+    if ft.bad.is_some() && far_apart {
+        let mut ft2 = Fit { sp: &sp, ob: &ob, pieces: vec![], bad: None, ptol, n: T::N };
+        used = fit(&mut ft2, 0, 0.0, 1.0, 0, &bits);
+        if ft2.bad.is_none() && used + 1 != out.len() {
+            ft2.bad = Some(format!("{} points returned but the dyadic partition accounts for {}", out.len(), used + 1));
+        }
+        if ft2.bad.is_none() {
+            rep.count("approximate.fitted_within_16_ulps_not_bit_for_bit");
+            ft = ft2;
+        }
     }
     if let Some(b) = ft.bad {
         if distinct {
@@ -389,7 +423,32 @@ fn spline_case<T: Sp>(rng: &mut Rng, rep: &mut Report, idx: u64) {
     // documented error, curve(mid) − chord midpoint, with a rounding slack,
     // or found in the log as a call that said true — or sits at the depth
     // bound, which is whatever depth the deepest piece has
-    let bound = ft.pieces.iter().map(|p| p.2).max().unwrap_or(0);
+    // … the depth bound: for one case in four it is taken from a second call
+    // on the same spline with a criterion that never halts (2^bound pieces);
+    // otherwise it is the deepest level present in this polyline
+    let deepest = ft.pieces.iter().map(|p| p.2).max().unwrap_or(0);
+    let bound_ref: Option<u32> = if idx % 4 == 1 && !always_false {
+        match catch(|| sp.approximate(|_| false).len()) {
+            Ok(n) if n >= 2 && (n - 1).is_power_of_two() => {
+                rep.count("approximate.bound_measured_by_a_never_halting_call");
+                Some((n - 1).trailing_zeros())
+            }
+            _ => None,
+        }
+    } else {
+        None
+    };
+    if let Some(br) = bound_ref {
+        if deepest > br && !distinct {
+            rep.count("approximate.unjudged(repeated point values: parameters ambiguous)");
+            return;
+        }
+        if deepest > br {
+            rep.violation("spline.approximate_piece_neither_met_nor_at_bound", format!("pieces go down to depth {deepest} although a never-halting criterion stops at depth {br}"), cj(0.0).set("halt_mode", mode));
+            return;
+        }
+    }
+    let bound = bound_ref.unwrap_or(deepest);
     let slack = 8e-6 * scale;
     let mut unmet_at_bound = 0u64;
     for &(a, b, dep) in &ft.pieces {
@@ -518,6 +577,7 @@ pub fn run(cfg: &Cfg, rep: &mut Report) {
     rep.floor("approximate.halt_calls", 1_000_000);
     rep.floor("approximate.judged_with_unique_parameters", 10_000);
     rep.floor("approximate.pieces", 1_000_000);
+    rep.floor("approximate.bound_measured_by_a_never_halting_call", 2_000);
     for s in 1..=8 {
         rep.floor(&format!("spline.segments_{s}"), 1_000);
     }
